@@ -13,12 +13,21 @@ AllScenarios == << [file |-> TmplB, delim |-> 2], [file |-> TmplA, delim |-> 1],
 TwoScenarios == SubSeq(AllScenarios, 1, 2)
 \* thorough tier, third operation: one template
 DeepScenarios == SubSeq(AllScenarios, 1, 1)
-\* (subsets are prefixes, so that sc indexes AllScenarios in every configuration)
+\* delimiter sets 3 and 4 contain characters that are special in a regular-expression character class
+\* (']' and '-'); the specification does not depend on the delimiter set, the generator must not either
+DelimScenarios == << [file |-> TmplA, delim |-> 3], [file |-> TmplB, delim |-> 4] >>
+DelimScenariosAll == DelimScenarios \o << [file |-> TmplB, delim |-> 3], [file |-> TmplA, delim |-> 4] >>
+\* (sc indexes Scenarios, the sequence that the configuration substitutes; it is printed as SCN)
 
-ASSUME PrintT(<<"SCN", ToJson(AllScenarios)>>)
+\* line counts of the wrapped arrays: quick tier two lines, thorough tier two and three
+WrapNone == {}
+WrapQuick == {2}
+WrapAll == {2, 3}
+
+ASSUME PrintT(<<"SCN", ToJson(Scenarios)>>)
 \* anchor 1 occurs twice, anchor 2 once, in every template; template tokens are distinct
-ASSUME \A i \in 1..Len(AllScenarios) :
-          LET f == AllScenarios[i].file
+ASSUME \A i \in 1..Len(AllScenarios \o DelimScenariosAll) :
+          LET f == (AllScenarios \o DelimScenariosAll)[i].file
           IN /\ Cardinality(ARows(f, 1)) = 2 /\ Cardinality(ARows(f, 2)) = 1
              /\ \A r \in 1..Len(f), s \in 1..Len(f) : \A j \in 1..Len(f[r]), k \in 1..Len(f[s]) :
                    (f[r][j] = f[s][k] /\ f[r][j] > 2) => (r = s /\ j = k)
@@ -35,8 +44,14 @@ XNext ==
     \/ \E v \in {101, 102}, row \in Rows, f \in Fields :
           TransferVar(v, row, f) /\ Out([n |-> "TransferVar", v |-> v, row |-> row, f |-> f])
     \/ \E vals \in Arrays, row \in Rows, fs \in Fields, fe \in Fields :
-          TransferArray(vals, row, fs, fe)
-          /\ Out([n |-> "TransferArray", vals |-> vals, row |-> row, fs |-> fs, fe |-> fe])
+          TransferArray(vals, row, row, fs, fe)
+          /\ Out([n |-> "TransferArray", vals |-> vals, row |-> row, re |-> row, fs |-> fs, fe |-> fe])
+    \/ \E row \in Rows, nr \in WrapRows, fs \in Fields, fe \in Fields, extra \in 0..1 :
+          /\ (cur + row) \in 1..Len(file) /\ (cur + row + nr - 1) \in 1..Len(file)
+          /\ LET vals == Cyc(ACount(file, cur + row, cur + row + nr - 1, fs, fe) + extra)
+             IN /\ TransferArray(vals, row, row + nr - 1, fs, fe)
+                /\ Out([n |-> "TransferArray", vals |-> vals, row |-> row, re |-> row + nr - 1,
+                        fs |-> fs, fe |-> fe])
     \/ \E rs \in Rows, nr \in 2..3, fs \in Fields, fe \in Fields :
           /\ Transfer2DArray(Matrix(nr, fe - fs + 1), rs, rs + nr - 1, fs, fe)
           /\ Out([n |-> "Transfer2DArray", vals |-> Matrix(nr, fe - fs + 1), rs |-> rs, re |-> rs + nr - 1,
